@@ -275,7 +275,8 @@ const TYPE_SQL: &[&str] = &[
 
 pub fn insert_row(g: &mut GenDb, table: &str, vals: Vec<V>) -> bool {
     g.script.push(format!("-- insert_row {} {}", table, vals.iter().map(val_sx).collect::<Vec<_>>().join(" ")));
-    g.db.db.insert_row(table, Row::new(vals)).is_ok()
+    let db = &mut g.db.db;
+    matches!(std::panic::catch_unwind(std::panic::AssertUnwindSafe(|| db.insert_row(table, Row::new(vals)).is_ok())), Ok(true))
 }
 
 /// A small database reached by DDL + typed row inserts + a short SQL DML history.
